@@ -18,6 +18,9 @@ import (
 
 type c01Case struct {
 	Spec gen.MsgSpec `json:"spec"`
+	// PriorFail > 0: before this message is rendered, ANOTHER message (a twin built from the same
+	// program) was rendered in this process into a destination that failed after that many bytes.
+	PriorFail int `json:"prior_fail,omitempty"`
 }
 
 func c01Run(c c01Case) []*core.Violation {
@@ -26,6 +29,12 @@ func c01Run(c c01Case) []*core.Violation {
 	if err != nil {
 		rec.Skip()
 		return nil
+	}
+	if c.PriorFail > 0 {
+		if twin, terr := gen.Build(&c.Spec, env); terr == nil {
+			_, _ = twin.Msg.WriteTo(&faultSink{limit: c.PriorFail, partial: true})
+			rec.Class("after-a-failed-render-of-another-message")
+		}
 	}
 	var buf bytes.Buffer
 	n, err := b.Msg.WriteTo(&buf)
@@ -75,14 +84,20 @@ func c01Opts() gen.GenOpts {
 	}
 }
 
-func c01Gen(t *rapid.T) c01Case { return c01Case{Spec: *gen.Program(t, c01Opts())} }
+func c01Gen(t *rapid.T) c01Case {
+	c := c01Case{Spec: *gen.Program(t, c01Opts())}
+	if rapid.IntRange(0, 5).Draw(t, "priorfail") == 0 {
+		c.PriorFail = rapid.IntRange(1, 4000).Draw(t, "priorfailat")
+	}
+	return c
+}
 
 func c01Describe() {
 	rec := core.Rec("C01")
 	rec.Rule = "message programs drawn by rapid: message encoding in {QP, base64, 8bit}; 0..4 body parts/alternatives (string, writer, text and HTML template setters; per-part encoding, charset, description), " +
 		"0..3 embeds and 0..3 attachments from every file source (reader, read-seeker, file on disk, fs.FS, templates, custom File.Writer) with per-file encoding/content type/description/content-id; contents from labelled byte classes " +
 		"(CRLF/LF/lone-CR line breaks, '=' runs, leading dots, trailing blanks, boundary-like lines, lines of 72..80/150/998..1001 columns, UTF-8 straddling column 76, arbitrary binary, sizes around 57n and 76n, empty). " +
-		"Oracle: own RFC 5322/2045/2046/2047 reader on WriteTo's output: leaf list == model in order (type, charset, CTE, disposition, file name, decoded bytes; QP modulo LF->CRLF), nesting shape, boundaries, count; cross-checked with net/mail + mime/multipart. " +
+		"One case in six is rendered after another message (a twin of the same program) failed to render into a destination that broke after 1..4000 bytes. Oracle: own RFC 5322/2045/2046/2047 reader on WriteTo's output: leaf list == model in order (type, charset, CTE, disposition, file name, decoded bytes; QP modulo LF->CRLF), nesting shape, boundaries, count; cross-checked with net/mail + mime/multipart. " +
 		"Non-trivial: >= 2 leaves, or a leaf whose content contains a byte its CTE must transform. Distinct by (message encoding, per-leaf type/encoding/content-class set)."
 	rec.Assumptions = []string{"quoted-printable text parts are generated with CRLF/LF line breaks only (lone CR is outside the statement's domain for QP text)",
 		"caller-chosen boundaries are not generated", "the host's MIME table may pick any syntactically valid type for files without a declared content type"}
